@@ -201,7 +201,7 @@ fn resolve(op: &HOp, s: &State) -> HOp {
     r
 }
 
-fn redundant<F: Flavour>(nodes: &[F::Node], t: &State) -> Result<(), Fail> {
+pub fn redundant<F: Flavour>(nodes: &[F::Node], t: &State) -> Result<(), Fail> {
     let n = nodes.len();
     let r = catch_unwind(AssertUnwindSafe(|| -> Result<(), Fail> {
         for (k, nd) in nodes.iter().enumerate() {
